@@ -20,11 +20,12 @@ meta.update({
 })
 meta.setdefault('checks', {})[check] = {'exit': rc, 'detected': rc == 1, 'fingerprints': fps,
                                         'how': f'tools/seed_check.sh {name} {check} (scratch worktree of /repo HEAD + patch, GNPY_REPO)'}
-if '_w2_' in name:
-    prop, short = name.split('_w2_', 1)
-    init = json.load(open('/verif/seeded/wave2_initial.json')).get(prop, {})
-    meta['wave'] = 2
-    meta['confirmed']['how'] = 'tools/seed_verify2.sh in a scratch worktree of /repo HEAD under /tmp/wt'
+if '_w2_' in name or '_w3_' in name:
+    w = 2 if '_w2_' in name else 3
+    prop, short = name.split(f'_w{w}_', 1)
+    init = json.load(open(f'/verif/seeded/wave{w}_initial.json')).get(prop, {})
+    meta['wave'] = w
+    meta['confirmed']['how'] = f'tools/seed_verify{w}.sh in a scratch worktree of /repo HEAD under /tmp/wt'
     if short in init:
         meta['reported_before_the_check_was_strengthened_for_wave_2'] = init[short]
 else:
